@@ -46,13 +46,37 @@ EXPLANATION = (
     "attribute path must start where the prefix ends, and the loop must "
     "return at the first importable prefix; every while loop in "
     "load_pytd/visitors/serialize_ast that shortens a dotted name held in a "
-    "local must peel from the right (rpartition / rsplit('.', 1), element 0).  "
+    "local must peel from the right (rpartition / rsplit('.', 1), element 0); "
+    "R6.20 (rules/c06_names.py) the three helpers that REBUILD a reference "
+    "from a dotted name and a table of known prefixes "
+    "(serialize_ast.UndoModuleAliasesVisitor.VisitLateType, "
+    "load_pytd._Resolver.resolve_module_alias, "
+    "visitors.LookupExternalTypes._LookupModuleRecursive) are evaluated from "
+    "their ASTs (rules/_minieval.py, a concrete evaluator for a pure "
+    "str/list/dict fragment) on every name of 1..5 components x every table "
+    "over its prefixes: the result must carry the entry of the longest known "
+    "prefix followed by the WHOLE remainder (every component, in order), and "
+    "the whole name when nothing matches; R6.21 (rules/c06_template.py) the "
+    "analyser's _compute_template and the stub reader's "
+    "AdjustTypeParameters.EnterClass (with the helpers they call, "
+    "mro.MergeSequences included) are evaluated on every class header of a "
+    "small scope and must yield the same sequence of type variables (or both "
+    "reject the header).  "
     "These are necessary conditions: breaking one makes a "
     "downstream module fail to load the stub, crash in convert.py, or see "
     "Any/an error where the upstream analysis had a type.  Preservation of "
     "meaning by each arm is not decided.  Blind spots of R6.6: what "
     "import_name / the module maps answer for a prefix, strip_init_suffix, "
-    "and prefix searches written in a third form (recursion, itertools).")
+    "and prefix searches written in a third form (recursion, itertools).  "
+    "Blind spots of R6.20/R6.21: only the listed functions, only inputs of "
+    "the small scope (names up to 5 components; headers with at most three "
+    "bases, type variables as direct arguments of the bases); how the "
+    "tables are filled and what callers do with the result; a function "
+    "rewritten outside the evaluated fragment is an analysis error, not a "
+    "verdict.  Bases parameterised by NESTED generics "
+    "(`class M(Box[List[V]], Other[K])`) are left out of R6.21 on purpose: "
+    "the two sides disagree there today (rules/pending_C06_template_nested.py, "
+    "not loaded, holds the rule and the confirmed failing input).")
 ASSUMPTIONS = [
     "convert.py dispatches pytd nodes only through constant_to_var, "
     "_constant_to_value and _pytd_constant_to_value; structural nodes "
@@ -68,6 +92,14 @@ ASSUMPTIONS = [
     "R6.6: index and slice bounds are affine in the loop index and the number "
     "of components, so agreement on names of 1..7 components is agreement on "
     "all; a longer prefix must win over a shorter one whenever both import",
+    "R6.20/R6.21: host str/list/dict/slice semantics equal the semantics the "
+    "code runs under; the world models (records with the attributes the "
+    "functions read: node.name/.Replace, _module_aliases, _module_map, "
+    "lookup_ast.aliases of pytd.Module entries; pytd.GenericType bases with "
+    "TypeParameter arguments; ParameterizedClass bases with "
+    "formal_type_parameters and with_scope) describe the real objects; "
+    "small-scope hypothesis: a wrong rebuild or a wrong merge shows on a "
+    "name of at most 5 components / a header of at most 3 bases",
 ]
 
 OUTPUT = "pytype/output.py"
